@@ -7,7 +7,7 @@ ln = sys.argv[3] if len(sys.argv) > 3 else "40"
 seed = sys.argv[4] if len(sys.argv) > 4 else "1"
 os.makedirs("/verif/.cache/t", exist_ok=True)
 os.chdir("/verif/.cache/t")
-subprocess.run(["/verif/.cache/target/release/harness", "vec", "gen", "--seed", seed, "--cases", cases, "--len", ln, "--mode", mode, "--ops", "ops.txt", "--out", "impl.txt"], check=True)
+subprocess.run(["/verif/.cache/target/release/harness", "vec", "gen", "--seed", seed, "--cases", cases, "--len", ln, "--mode", mode, "--ops", "ops.txt", "--out", "impl.txt"] + sys.argv[5:], check=True)
 with open("ops.txt") as fi, open("model.txt", "w") as fo:
     subprocess.run(["/verif/lean/.lake/build/bin/anydb_driver", "vec"], stdin=fi, stdout=fo, check=True)
 ops = open('ops.txt').read().splitlines(); im = open('impl.txt').read().splitlines(); mo = open('model.txt').read().splitlines()
